@@ -343,6 +343,18 @@ class History:
             forms = [('+ zero vector', lambda: x + sm.Vec()), ('- zero vector', lambda: x - sm.FrozenVec()), ('* 1', lambda: x * 1),
                      ('* 1.0', lambda: 1.0 * x), ('/ 1', lambda: x / 1), ('@ zero angle', lambda: x @ zero_ang),
                      ('@ identity matrix', lambda: x @ ident_mat), ('+ (0,0,0)', lambda: x + (0.0, 0.0, 0.0)), ('unary +', lambda: +x)]
+            # ... and the methods whose answer has the value of the vector they were asked of: clamping to bounds it is inside
+            # of already (every argument form), rounding whole numbers, abs() of non-negative components, normalising a unit vector
+            lo, hi = sm.Vec(-1e300, -1e300, -1e300), sm.FrozenVec(1e300, 1e300, 1e300)
+            forms += [('.clamped(lo, hi) inside the bounds', lambda: x.clamped(lo, hi)), ('.clamped(mins=lo)', lambda: x.clamped(mins=lo)),
+                      ('.clamped(maxs=hi)', lambda: x.clamped(maxs=hi)), ('.clamped(mins=x, maxs=x)', lambda: x.clamped(mins=x, maxs=x)),
+                      ('.clamped(tuple bounds)', lambda: x.clamped((-1e300,) * 3, (1e300,) * 3))]
+            if all(c == int(c) for c in self.raw(x) if abs(c) < 1e15):
+                forms.append(('round()', lambda: round(x, 3)))
+            if all(c >= 0 for c in self.raw(x)):
+                forms.append(('abs()', lambda: abs(x)))
+            if self.raw(x) in ((1.0, 0.0, 0.0), (0.0, 1.0, 0.0), (0.0, 0.0, -1.0)):
+                forms.append(('.norm() of a unit vector', lambda: x.norm()))
         elif isinstance(x, sm.Angle):
             forms = [('@ zero angle', lambda: x @ zero_ang), ('@ identity matrix', lambda: x @ ident_mat), ('* 1', lambda: x * 1), ('* 1.0', lambda: 1.0 * x)]
         else:
@@ -921,4 +933,4 @@ def replay(run, data) -> None:
 
 
 # (kept at the end of the file so that the text above stays the description the check was first built to)
-RULE += ' ' + 'Later additions: library ==, != (both directions) and hash() on every copy / freeze / thaw; text forms also through format() and f-strings and for magnitudes above 1e12. Calls that hand out several vectors at once (bbox corners for 1-4 points in every delivery form, iter_grid, iter_line, divmod) give results that are new objects, independent of one another and of the arguments, with the values of a direct min/max/divmod model. Angle components are also constructed and assigned (attribute and item form) from the far ends of the float range: 1e17 .. 1.8e308 and the denormals.'
+RULE += ' ' + 'Later additions: library ==, != (both directions) and hash() on every copy / freeze / thaw; text forms also through format() and f-strings and for magnitudes above 1e12. Calls that hand out several vectors at once (bbox corners for 1-4 points in every delivery form, iter_grid, iter_line, divmod) give results that are new objects, independent of one another and of the arguments, with the values of a direct min/max/divmod model. Angle components are also constructed and assigned (attribute and item form) from the far ends of the float range: 1e17 .. 1.8e308 and the denormals. Methods whose answer has the value of the vector they were asked of (clamped() inside the bounds in every argument form, round(), abs(), norm() of a unit vector) return a new object.'
